@@ -138,6 +138,9 @@ class Ref:
         self.cells = []
         self.unspec = []
         self.report_unspec = []
+        # (ctx, column, check id) whose own report rows are not settled (a raising check, a check evaluated on
+        # wrongly typed data); every other row of the report is still compared
+        self.unspec_checks = set()
 
     def add_frame(self, check_id, level, ctx="DataFrameSchema", column=None, value=None):
         self.frame.append((ctx, column, check_id, value, level))
@@ -232,7 +235,7 @@ def _eval_component(ref, comp, values, phys_dt, ctx, column, rowkeys, where="col
             continue
         if chk["k"] == "custom_raise":
             ref.add_frame(f"check#{ci}", "data", ctx, column, "CHECK_ERROR")
-            ref.report_unspec.append("report of a raising check")
+            ref.unspec_checks.add((ctx, column, f"check#{ci}"))
             continue
         ignore_na = kw.get("ignore_na", True)
         for i, v in enumerate(values):
